@@ -302,6 +302,10 @@ def h_history(s0: int, s1: int, s2: int, g0: int, g1: int, g2: int) -> bool:
     c = vkopf.cell()
     n = c.get('n', 2)
     allowed = c.get('steps')
+    s0, s1 = vkopf.pin('s0', s0), vkopf.pin('s1', s1)
+    gmax = c.get('gap_max')
+    if gmax is not None and (g0 > gmax or g1 > gmax or g2 > gmax):
+        return True
     steps = [s0, s1, s2][:n]
     if allowed is not None and any(s not in allowed for s in steps):
         return True
@@ -365,14 +369,19 @@ def obligations():
     obs = [Ob('h_stop_stage', {}, timeout=900, twins=['signalled', 'cancelled', 'abandoned']),
            Ob('h_stop_daemon', {}, timeout=900, twins=['cancel_seen', 'abandoned'])]
     safe = [0, 1, 2, 3, 4, 5, 6, 7]
-    obs.append(Ob('h_history', {'kind': 'daemon', 'n': 2, 'steps': safe}, timeout=3000, path_timeout=200, twins=['respawned']))
-    obs.append(Ob('h_history', {'kind': 'timer', 'n': 2, 'steps': safe, 'timer_kw': {'interval': 3}}, timeout=3000,
-                  path_timeout=200, tiers=('thorough',)))
-    obs.append(Ob('h_history', {'kind': 'timer', 'n': 2, 'steps': safe, 'timer_kw': {'idle': 4}}, timeout=3000,
-                  path_timeout=200, tiers=('thorough',)))
-    obs.append(Ob('h_history', {'kind': 'timer', 'n': 2, 'steps': safe, 'timer_kw': {'interval': 3, 'idle': 4}}, timeout=3000,
-                  path_timeout=200, tiers=('thorough',)))
-    obs.append(Ob('h_history', {'kind': 'daemon', 'n': 3, 'steps': safe}, timeout=3400, path_timeout=200, tiers=('thorough',)))
-    obs.append(Ob('h_history', {'kind': 'timer', 'n': 1, 'steps': safe, 'timer_kw': {'idle': 4}}, timeout=1500, path_timeout=200))
-    obs.append(Ob('h_history', {'kind': 'timer', 'n': 1, 'steps': safe, 'timer_kw': {'interval': 3}}, timeout=1500, path_timeout=200))
+    # quick: a sample of step pairs for the daemon (unbounded symbolic gaps), single steps for timers (gaps bounded by 8 s,
+    # because every tick of a periodic timer is another case split of an unbounded gap)
+    for (a, b) in ((0, 1), (3, 7), (4, 2), (5, 6), (2, 3), (1, 4)):
+        obs.append(Ob('h_history', {'kind': 'daemon', 'n': 2, 'pin': {'s0': a, 's1': b}}, tiers=('quick',), timeout=900, path_timeout=200))
+    obs.append(Ob('h_history', {'kind': 'daemon', 'n': 2, 'pin': {'s0': 0, 's1': 1}}, tiers=('quick', 'thorough'), timeout=600, path_timeout=200,
+                  twins=['respawned'], main=False))
+    for kw in ({'idle': 4}, {'interval': 3}):
+        for a in (3, 4, 5, 7):
+            obs.append(Ob('h_history', {'kind': 'timer', 'n': 1, 'timer_kw': kw, 'gap_max': 8, 'pin': {'s0': a}}, tiers=('quick',),
+                          timeout=900, path_timeout=200))
+    obs += split(Ob('h_history', {'kind': 'daemon', 'n': 2}, tiers=('thorough',), timeout=1800, path_timeout=200), s0=safe, s1=safe)
+    obs += split(Ob('h_history', {'kind': 'daemon', 'n': 3}, tiers=('thorough',), timeout=3400, path_timeout=200), s0=safe, s1=safe)
+    for kw in ({'interval': 3}, {'idle': 4}, {'interval': 3, 'idle': 4}):
+        obs += split(Ob('h_history', {'kind': 'timer', 'n': 2, 'timer_kw': kw, 'gap_max': 12}, tiers=('thorough',), timeout=3000, path_timeout=200),
+                     s0=safe, s1=safe)
     return obs
